@@ -391,6 +391,84 @@ pub fn conv_coord(k: Key, flip: bool, swap: bool) -> Key {
 	}
 	(z, x, y)
 }
+/// An mbtiles file with the freedoms SQLite and the MBTiles spec leave open, seeded by `variant`:
+/// `tiles` as a plain table / a VIEW over map + images / WITHOUT ROWID / with extra columns, with or without an index,
+/// columns declared `integer`/`blob` or without a type, rows in random order, and for a few rows `tile_data` stored as
+/// TEXT / NULL / INTEGER / REAL / zeroblob instead of a BLOB.  (Duplicate rows for one coordinate are left out: the spec's
+/// unique index forbids them and lookup-first-row vs stream-all-rows then differ by construction.)
+pub fn write_mbx(path: &Path, tiles: &BTreeMap<Key, Blob>, fmt: u32, comp: u32, variant: u64) -> Result<String> {
+	let _ = std::fs::remove_file(path);
+	let mut r = Rng::new(variant.wrapping_mul(7919) + 13);
+	let conn = rusqlite::Connection::open(path)?;
+	let schema = variant % 5;
+	let typed = r.chance(3, 4);
+	let (ti, tb) = if typed { ("integer", "blob") } else { ("", "") };
+	conn.execute_batch("CREATE TABLE metadata (name text, value text);")?;
+	match schema {
+		1 => conn.execute_batch(&format!(
+			"CREATE TABLE map (zoom_level {ti}, tile_column {ti}, tile_row {ti}, tile_id text);
+			 CREATE TABLE images (tile_data {tb}, tile_id text);
+			 CREATE VIEW tiles AS SELECT map.zoom_level AS zoom_level, map.tile_column AS tile_column, map.tile_row AS tile_row, images.tile_data AS tile_data FROM map JOIN images ON images.tile_id = map.tile_id;"
+		))?,
+		2 => conn.execute_batch("CREATE TABLE tiles (zoom_level integer, tile_column integer, tile_row integer, tile_data blob, PRIMARY KEY (zoom_level, tile_column, tile_row)) WITHOUT ROWID;")?,
+		3 => conn.execute_batch(&format!("CREATE TABLE tiles (extra1 text, zoom_level {ti}, tile_column {ti}, tile_row {ti}, tile_data {tb}, extra2 integer);"))?,
+		_ => conn.execute_batch(&format!("CREATE TABLE tiles (zoom_level {ti}, tile_column {ti}, tile_row {ti}, tile_data {tb});"))?,
+	}
+	if r.chance(1, 2) && schema != 2 {
+		if schema == 1 {
+			conn.execute_batch("CREATE UNIQUE INDEX map_index ON map (zoom_level, tile_column, tile_row);")?;
+		} else {
+			conn.execute_batch("CREATE UNIQUE INDEX tile_index ON tiles (zoom_level, tile_column, tile_row);")?;
+		}
+	}
+	let mut rows: Vec<(&Key, &Blob)> = tiles.iter().collect();
+	// random order
+	for i in (1..rows.len()).rev() {
+		let j = r.below(i as u64 + 1) as usize;
+		rows.swap(i, j);
+	}
+	let mut classes = String::new();
+	for (n, (k, b)) in rows.iter().enumerate() {
+		let row = ((1u64 << k.0) - 1 - k.2 as u64) as u32;
+		let class = if n > 0 && r.chance(1, 4) { r.range(1, 6) } else { 0 };
+		classes.push(char::from(b'0' + class as u8));
+		use rusqlite::types::Value as V;
+		let data: V = match class {
+			1 => V::Text(String::from_utf8_lossy(b.as_slice()).chars().take(20).collect::<String>() + "text"),
+			2 => V::Null,
+			3 => V::Integer(42),
+			4 => V::Real(1.5),
+			5 => V::Blob(vec![0u8; 7]),
+			6 => V::Blob(vec![]),
+			_ => V::Blob(b.as_slice().to_vec()),
+		};
+		match schema {
+			1 => {
+				let idv = format!("t{n}");
+				conn.execute("INSERT INTO map VALUES (?1, ?2, ?3, ?4)", rusqlite::params![k.0, k.1, row, idv])?;
+				conn.execute("INSERT INTO images VALUES (?1, ?2)", rusqlite::params![data, idv])?;
+			}
+			3 => {
+				conn.execute("INSERT INTO tiles VALUES ('x', ?1, ?2, ?3, ?4, 5)", rusqlite::params![k.0, k.1, row, data])?;
+			}
+			_ => {
+				conn.execute("INSERT INTO tiles VALUES (?1, ?2, ?3, ?4)", rusqlite::params![k.0, k.1, row, data])?;
+			}
+		}
+	}
+	let format = match (fmt, comp) {
+		(1, _) => "pbf",
+		(2, _) => "png",
+		(3, _) => "jpg",
+		_ => "webp",
+	};
+	conn.execute("INSERT INTO metadata VALUES ('format', ?1)", [format])?;
+	if r.chance(3, 4) {
+		conn.execute_batch("INSERT INTO metadata VALUES ('name', 'x'); INSERT INTO metadata VALUES ('type', 'baselayer'); INSERT INTO metadata VALUES ('version', '3.0');")?;
+	}
+	Ok(format!("schema={schema} typed={typed} classes={classes}"))
+}
+
 /// the tiles of a source spec at the coordinates at which the (possibly converter-wrapped) leaf serves them
 pub fn served_tiles(s: &SrcSpec) -> BTreeMap<Key, u64> {
 	match conv_flags(&s.kind) {
@@ -411,6 +489,9 @@ pub fn wrap_conv(r: Box<dyn TilesReaderTrait>, kind: &str) -> Result<Box<dyn Til
 }
 
 pub fn ext_of(kind: &str) -> &str {
+	if kind.starts_with("mbx") {
+		return ".mbtiles";
+	}
 	match base_kind(kind) {
 		"vtx" => ".versatiles",
 		"versatiles" => ".versatiles",
@@ -475,6 +556,9 @@ impl World {
 							ch.max_gap = *r.pick(&[0usize, 0, 100, 40_000]);
 							let enc = ind::encode_versatiles(&tm, &ch, &mut r);
 							std::fs::write(&ps, &enc.bytes)?;
+						} else if bk.starts_with("mbx") {
+							let variant: u64 = bk[3..].parse().unwrap_or(0);
+							write_mbx(Path::new(&ps), &m3.tiles, s.fmt, s.comp, variant)?;
 						} else if bk != "mem" {
 							write_to_filename(&mut m2, &ps).await?;
 						}
@@ -885,9 +969,31 @@ pub fn run_in_world(rt: &tokio::runtime::Runtime, out: &mut Out, id: &mut Ident,
 		eprintln!("  run {prop} {op} {rpn} {}", trunc(args, 3000));
 	}
 	let env = w.env_string();
-	let line = if args.is_empty() { format!("{prop} {op} {rpn} {env}") } else { format!("{prop} {op} {rpn} {env} {args}") };
+	let mop = if op == "s" { "S" } else { op };
+	let line = if args.is_empty() { format!("{prop} {mop} {rpn} {env}") } else { format!("{prop} {mop} {rpn} {env} {args}") };
 	if !w.usable() {
 		out.count("world_unusable");
+		return;
+	}
+	if op == "Y" {
+		// oracle only: whatever the lookups say, the stream must say the same; nothing may panic (source 0's reader)
+		let rd = match catch(|| rt.block_on(async { w.reader(0).await })) {
+			Ok(Ok(r)) => r,
+			_ => {
+				out.count("reader_open_failed");
+				return;
+			}
+		};
+		let src = Real::R(rd);
+		for bs in args.split(';') {
+			let b = parse_box(bs);
+			let ev = eval_box(rt, &src, &b);
+			out.eval(&format!("{prop} Y {rpn} {env} {bs}"), nontrivial_box(&b, &src.params().bbox_pyramid) || ev.n_lookup_hits > 0);
+			out.count("oracle_only_reader_boxes");
+			let ok = ev.failure.is_none();
+			let (kind, text) = ev.failure.unwrap_or_default();
+			out.oracle(ok, &format!("{prop} reader stream vs lookups: {text}"), json!({"kind": kind, "src": w.specs[0].kind.trim_end_matches(char::is_numeric)}), json!({"case": format!("{prop} Y {rpn} {env} {bs}")}));
+		}
 		return;
 	}
 	if op == "X" {
@@ -1032,7 +1138,9 @@ pub fn run_in_world(rt: &tokio::runtime::Runtime, out: &mut Out, id: &mut Ident,
 			let hits = res.iter().filter(|r| r.as_str() != "-").count();
 			out.case(&line, &res.join("|"), hits > 0 && hits < res.len());
 		}
-		"S" => {
+		"S" | "s" => {
+			// "s": model line only (what the code does today), without the stream-vs-lookups oracle
+			let with_oracle = op == "S";
 			let mut res = vec![];
 			let mut any_nt = false;
 			for bs in args.split(';') {
@@ -1047,7 +1155,7 @@ pub fn run_in_world(rt: &tokio::runtime::Runtime, out: &mut Out, id: &mut Ident,
 					Ok(v) => show_stream(id, comp, v),
 					Err(_) => "panic".to_string(),
 				});
-				let ok = ev.failure.is_none();
+				let ok = ev.failure.is_none() || !with_oracle;
 				let (kind, text) = ev.failure.unwrap_or_default();
 				out.oracle(
 					ok,
